@@ -321,7 +321,7 @@ Print Assumptions service_check_hygiene_clause_sound.
 (** non-vacuity: a repeated context (timeout 2, every 3 blocks, 2 batches) paused and restarted
     while its batch runs, a one-shot context answered in time, one whose consumer cannot pay *)
 Example service_nonvacuous :
-  let ops := [Call 1 0 2 true 3 2 Ok; Call 2 0 3 false 0 0 Ok; Call 3 1 2 false 0 0 Ok;
+  let ops := [Call 1 0 2 true 3 2 2 Ok; Call 2 0 3 false 0 0 1 Ok; Call 3 1 2 false 0 0 1 Ok;
               EndBlock [(1, NBStart 2); (2, NBStart 1); (3, NBNoFunds)];
               Respond 2 true true Ok; Pause 1 0 Ok; EndBlock []; Start 1 0 Ok; EndBlock []; EndBlock [];
               EndBlock [(1, NBStart 0)]; EndBlock []; EndBlock []] in
@@ -352,7 +352,7 @@ Proof. vm_compute. repeat split. Qed.
     store for ever, with no queue entry (corpus/C13/service-killed-between-batches-context-stays.jsonl
     shows the same on the implementation). *)
 Example service_killed_between_batches_stays :
-  let ops := [Call 1 0 2 true 5 (-1) Ok; EndBlock [(1, NBStart 1)]; EndBlock []; EndBlock []; Kill 1 0 Ok]
+  let ops := [Call 1 0 2 true 5 (-1) 1 Ok; EndBlock [(1, NBStart 1)]; EndBlock []; EndBlock []; Kill 1 0 Ok]
              ++ repeat (EndBlock []) 40 in
   let s := run (init 1) ops in
   map (fun x => (fst x, cstate_code (c_state (snd x)))) (ctxs s) = [(1, 2)] /\ nq s = [] /\ xq s = []
